@@ -151,7 +151,7 @@ func histLens(t *rapid.T) (maxMin, maxLen int) {
 func TestSimple(t *testing.T) {
 	set := []int{kSD, kSU, kSWD, kSWU}
 	runExhaustive(t, "simple", simpleSpaces())
-	vk.Run(t, "simple", vk.Opts{Quick: 9000, Thorough: 200000}, func(t *rapid.T) Case {
+	vk.Run(t, "simple", vk.Opts{Quick: 8000, Thorough: 60000}, func(t *rapid.T) Case {
 		mm, ml := histLens(t)
 		return drawCase(t, set, mm, ml)
 	}, checker("simple", "random"))
@@ -160,7 +160,7 @@ func TestSimple(t *testing.T) {
 func TestDense(t *testing.T) {
 	set := []int{kDM, kUM}
 	runExhaustive(t, "dense", denseSpaces())
-	vk.Run(t, "dense", vk.Opts{Quick: 5000, Thorough: 100000}, func(t *rapid.T) Case {
+	vk.Run(t, "dense", vk.Opts{Quick: 4000, Thorough: 40000}, func(t *rapid.T) Case {
 		mm, ml := histLens(t)
 		return drawCase(t, set, mm, ml)
 	}, checker("dense", "random"))
@@ -169,7 +169,7 @@ func TestDense(t *testing.T) {
 func TestMulti(t *testing.T) {
 	set := []int{kMD, kMU, kMWD, kMWU}
 	runExhaustive(t, "multi", multiSpaces())
-	vk.Run(t, "multi", vk.Opts{Quick: 9000, Thorough: 200000}, func(t *rapid.T) Case {
+	vk.Run(t, "multi", vk.Opts{Quick: 7000, Thorough: 60000}, func(t *rapid.T) Case {
 		mm, ml := histLens(t)
 		return drawCase(t, set, mm, ml)
 	}, checker("multi", "random"))
@@ -280,7 +280,10 @@ func runExhaustive(t *testing.T, sub string, spaces []*space) {
 	for _, sp := range spaces {
 		offs = append(offs, total)
 		total += sp.size()
-		vk.Extra(fmt.Sprintf("%s states %s U=%d L=%d N=%d from=%v", sub, kinds[sp.proto.Kind].name, sp.proto.NU, sp.proto.NL, sp.proto.N, sp.proto.FromNodes), int64(len(sp.hist)))
+		if sh, _ := vk.Shard(); sh == 0 {
+			vk.Extra(fmt.Sprintf("exhaustive %s: abstract states of %s (IDs=%d lineIDs=%d n=%d fromNodes=%v absent=%v)", sub, kinds[sp.proto.Kind].name, sp.proto.NU, sp.proto.NL-1, sp.proto.N, sp.proto.FromNodes, float64(sp.proto.Absent)), int64(len(sp.hist)))
+			vk.Extra(fmt.Sprintf("exhaustive %s: operations tried out of every state of %s (IDs=%d lineIDs=%d n=%d)", sub, kinds[sp.proto.Kind].name, sp.proto.NU, sp.proto.NL-1, sp.proto.N), int64(len(sp.final)))
+		}
 	}
 	vk.Enumerate(t, sub, total, func(i int) Case {
 		k := sort.Search(len(offs), func(j int) bool { return offs[j] > i }) - 1
@@ -344,26 +347,34 @@ func multiSpaces() []*space {
 }
 
 func denseSpaces() []*space {
-	n := vk.Pick(3, 4)
 	var out []*space
 	for _, kind := range []int{kDM, kUM} {
 		for _, from := range []bool{false, true} {
 			for _, absent := range []float64{0, math.NaN()} {
-				proto := Case{Kind: kind, N: n, FromNodes: from, Seed: 12345, Init: vk.F(absent), Self: vk.F(3), Absent: vk.F(absent), Merge: 2, UAbs: vk.F(absent)}
-				var moves, final []Op
-				// universe indices: 0..n-1 inside, n, n+1 just outside, n+2 is -1
-				for a := 0; a <= n+2; a++ {
-					for b := 0; b <= n+2; b++ {
-						if a < n && b < n {
-							moves = append(moves, Op{K: opSetEdge, A: a, B: b, W: 1}, Op{K: opRemoveEdge, A: a, B: b})
-						}
-						final = append(final, Op{K: opSetUnit, A: a, B: b, T: 1}, Op{K: opSetEdge, A: a, B: b, W: 2.5, T: 1},
-							Op{K: opSetEdge, A: a, B: b, W: vk.F(absent), T: 2}, Op{K: opRemoveEdge, A: a, B: b})
-					}
+				// quick: n=3, all variants; thorough additionally n=4 for
+				// (implicit nodes, absent 0) and (...From nodes, absent NaN)
+				out = append(out, denseSpace(kind, 3, from, absent))
+				if !vk.Quick() && from == math.IsNaN(absent) {
+					out = append(out, denseSpace(kind, 4, from, absent))
 				}
-				out = append(out, buildSpace(proto, n, moves, final))
 			}
 		}
 	}
 	return out
+}
+
+func denseSpace(kind, n int, from bool, absent float64) *space {
+	proto := Case{Kind: kind, N: n, FromNodes: from, Seed: 12345, Init: vk.F(absent), Self: vk.F(3), Absent: vk.F(absent), Merge: 2, UAbs: vk.F(absent)}
+	var moves, final []Op
+	// universe indices: 0..n-1 inside, n, n+1 just outside, n+2 is -1
+	for a := 0; a <= n+2; a++ {
+		for b := 0; b <= n+2; b++ {
+			if a < n && b < n {
+				moves = append(moves, Op{K: opSetEdge, A: a, B: b, W: 1}, Op{K: opRemoveEdge, A: a, B: b})
+			}
+			final = append(final, Op{K: opSetUnit, A: a, B: b, T: 1}, Op{K: opSetEdge, A: a, B: b, W: 2.5, T: 1},
+				Op{K: opSetEdge, A: a, B: b, W: vk.F(absent), T: 2}, Op{K: opRemoveEdge, A: a, B: b})
+		}
+	}
+	return buildSpace(proto, n, moves, final)
 }
